@@ -2,6 +2,7 @@ package main
 
 import (
 	"github.com/mochi-mqtt/server/v2/packets"
+	"sort"
 
 	rc "verif/harness/refcodec"
 	"verif/harness/vk"
@@ -45,8 +46,13 @@ func corpusSeeds(seed int64, perType int) []decInput {
 			}
 		}
 	}
-	for _, cases := range packets.TPacketData {
-		for _, c := range cases {
+	types := make([]int, 0, len(packets.TPacketData))
+	for t := range packets.TPacketData {
+		types = append(types, int(t))
+	}
+	sort.Ints(types) // map order would make the seed list, and with it every PRNG-derived mutation, differ from run to run
+	for _, t := range types {
+		for _, c := range packets.TPacketData[byte(t)] {
 			if len(c.RawBytes) < 2 {
 				continue
 			}
